@@ -298,11 +298,13 @@ class World:
 
     nontrivial = False
 
-    def rebase(self):
+    def rebase(self, among=None):
         rng = self.rng
         if len(self.ifaces) < 2:
             return
         i = rng.randrange(1, len(self.ifaces))
+        if among:
+            i = rng.choice(among)
         k = min(i, rng.choice([0, 1, 1, 2, 2, 3]))
         nb = tuple(rng.sample(self.ifaces[:i], k)) or (Interface,)
         self.ctx.op('rebase', self.ifaces[i].__name__, nm(nb))
@@ -316,6 +318,62 @@ class World:
         return True
 
 
+class HName(str):
+    """An attribute name whose k-th hashing runs an action (a re-basing): foreign code can run at every dictionary
+    operation inside an accessor, so a re-basing can overlap a query."""
+
+    def __new__(cls, text, k, action):
+        self = str.__new__(cls, text)
+        self.k, self.n, self.action = k, 0, action
+        return self
+
+    def __hash__(self):
+        self.n += 1
+        if self.n == self.k:
+            self.action()
+        return str.__hash__(self)
+
+    __eq__ = str.__eq__
+
+
+def overlapping_rebase(w):
+    """A re-basing of the queried interface or of one of its ancestors happens *while* an accessor runs.  What that
+    interrupted call returns is not judged; afterwards everything must follow the new bases (no answer found along
+    the old resolution order may have been memoised)."""
+    rng, ctx = w.rng, w.ctx
+    cands = [I for I in w.ifaces if len(I.__iro__) > 2]
+    if not cands:
+        return
+    I = rng.choice(cands)
+    if rng.random() < 0.5:
+        for name in NAMES:
+            I.get(name)                 # warm memo
+    anc = [w.ifaces.index(x) for x in I.__iro__ if x in w.ifaces and w.ifaces.index(x) > 0]
+    done = []
+
+    def act():
+        if not done:
+            done.append(w.rebase(among=anc))
+    k = rng.randint(1, 6)
+    name = HName(rng.choice(NAMES), k, act)
+    acc = rng.choice(['get', 'getitem', 'in', 'queryDescriptionFor'])
+    ctx.op('overlapping-rebase', I.__name__, str(name), k, acc)
+    try:
+        if acc == 'get':
+            I.get(name)
+        elif acc == 'getitem':
+            I[name]
+        elif acc == 'in':
+            name in I
+        else:
+            I.queryDescriptionFor(name)
+    except KeyError:
+        pass
+    if done and done[0] is True:
+        ctx.count('rebasings_overlapping_a_query')
+        w.check('after-overlapping-rebase')
+
+
 def run_case(ctx, rng, job):
     w = World(ctx, rng, job['tier'])
     w.check('cold')
@@ -324,6 +382,9 @@ def run_case(ctx, rng, job):
         if rng.random() < 0.15:
             if w.reload_twin():
                 w.check('after-twin-swap')
+            continue
+        if rng.random() < 0.2:
+            overlapping_rebase(w)
             continue
         if w.rebase() is False:
             break
